@@ -792,6 +792,50 @@ func (u *Unit) binop(st *State, op token.Token, l, r Value, t types.Type, pos to
 	if a.Sort.isBV() || b.Sort.isBV() {
 		return u.bvop(st, op, l, r, t)
 	}
+	// literal operands of bit operations fold
+	switch op {
+	case token.AND, token.OR, token.XOR, token.AND_NOT:
+		if av, ok := a.intVal(); ok && av.Sign() >= 0 {
+			if bv, ok := b.intVal(); ok && bv.Sign() >= 0 {
+				z := new(big.Int)
+				switch op {
+				case token.AND:
+					z.And(av, bv)
+				case token.OR:
+					z.Or(av, bv)
+				case token.XOR:
+					z.Xor(av, bv)
+				case token.AND_NOT:
+					z.AndNot(av, bv)
+				}
+				return scalar(t, BigLit(z))
+			}
+		}
+	}
+	// bit operations distribute over a conditional with literal branches when the other operand is
+	// a literal: c | ite(p, x, y) = ite(p, c|x, c|y) (so that flag words fold to constants per case)
+	switch op {
+	case token.AND, token.OR, token.XOR, token.AND_NOT:
+		for k, p := range [][2]Term{{a, b}, {b, a}} {
+			if _, lit := p[0].intVal(); !lit {
+				continue
+			}
+			if c, x, y, ok := iteParts(p[1]); ok {
+				_, xl := x.intVal()
+				_, yl := y.intVal()
+				if xl && yl {
+					mk := func(z Term) Term {
+						lv, rv := scalar(l.T, p[0]), scalar(r.T, z)
+						if k == 1 {
+							lv, rv = scalar(l.T, z), scalar(r.T, p[0])
+						}
+						return u.binop(st, op, lv, rv, t, pos).term()
+					}
+					return scalar(t, Ite(c, mk(x), mk(y)))
+				}
+			}
+		}
+	}
 	machine := false
 	if t != nil {
 		_, _, machine = intRange(t)
@@ -853,7 +897,7 @@ func (u *Unit) binop(st *State, op token.Token, l, r Value, t types.Type, pos to
 			if op == token.QUO {
 				return scalar(t, App("div", SInt, a, b))
 			}
-			return scalar(t, App("mod", SInt, a, b))
+			return scalar(t, u.modTerm(st, a, b))
 		}
 		// truncated division for signed operands
 		absA := Ite(Ge(a, IntLit(0)), a, Neg(a))
@@ -863,7 +907,7 @@ func (u *Unit) binop(st *State, op token.Token, l, r Value, t types.Type, pos to
 			sameSign := Eq(Ge(a, IntLit(0)), Ge(b, IntLit(0)))
 			return scalar(t, Ite(sameSign, q, Neg(q)))
 		}
-		rm := App("mod", SInt, absA, absB)
+		rm := u.modTerm(st, absA, absB)
 		return scalar(t, Ite(Ge(a, IntLit(0)), rm, Neg(rm)))
 	case token.SHL:
 		if n, ok := b.intVal(); ok && n.IsInt64() && n.Int64() < 64 {
@@ -1145,4 +1189,34 @@ func (u *Unit) initMap(st *State, t types.Type, ref Term) {
 	dk := "MD:" + typeKey(t)
 	dom := u.heapArr(st, dk, ArrSort(SInt, ArrSort(ksort, SBool)))
 	st.heap[dk] = Store(dom, ref, ConstArr(ArrSort(ksort, SBool), TFalse))
+}
+
+// modTerm is a mod b for a >= 0, b != 0: SMT mod for a literal divisor; for a symbolic divisor
+// an uninterpreted function with its range (mod by a variable is non-linear and makes unrelated
+// goals slow; the congruence and range facts are what proofs use).
+func (u *Unit) modTerm(st *State, a, b Term) Term {
+	if _, ok := b.intVal(); ok {
+		return App("mod", SInt, a, b)
+	}
+	f := u.d.Fun("umod", []Sort{SInt, SInt}, SInt)
+	r := App(f, SInt, a, b)
+	if st != nil && !strings.Contains(r.S, "!q") {
+		st.assume(Imp(Gt(b, IntLit(0)), And(Le(IntLit(0), r), Lt(r, b))))
+	}
+	return r
+}
+
+// iteParts splits a term of the form (ite c a b).
+func iteParts(t Term) (c, a, b Term, ok bool) {
+	if !strings.HasPrefix(t.S, "(ite ") {
+		return
+	}
+	i := len("(ite ")
+	j := skipSexp(t.S, i)
+	k := skipSexp(t.S, j)
+	m := skipSexp(t.S, k)
+	if strings.TrimSpace(t.S[m:]) != ")" {
+		return
+	}
+	return Term{strings.TrimSpace(t.S[i:j]), SBool}, Term{strings.TrimSpace(t.S[j:k]), t.Sort}, Term{strings.TrimSpace(t.S[k:m]), t.Sort}, true
 }
